@@ -136,3 +136,28 @@ func VerifC14Mutual() {
 	rt.Assert((err4 == nil) == vC14In(compatB, ownA), "no-verify-mode-gates-on-version")
 	rt.Reach("mutual")
 }
+
+// VerifC14Sequence: the identity attached to a connection stays the one its signature proved, whatever the same
+// verifier checks afterwards (other accounts, rejected credentials): results of earlier checks are not rewritten.
+func VerifC14Sequence() {
+	vC14Install()
+	ids := rt.Atoms(3, 2)
+	node := newPeerSignVerifier(1, []uint32{1}, "cv", &accountdata.AccountKeys{PeerId: ids[0], SignKey: &vC14Priv{id: "node"}})
+	alice := newPeerSignVerifier(1, []uint32{1}, "cv", &accountdata.AccountKeys{PeerId: ids[1], SignKey: &vC14Priv{id: "alice"}})
+	bob := newPeerSignVerifier(1, []uint32{1}, "cv", &accountdata.AccountKeys{PeerId: ids[2], SignKey: &vC14Priv{id: "bobby"}})
+	first, err := node.CheckCredential(ids[1], alice.MakeCredentials(ids[0]))
+	rt.Assert(err == nil && string(first.Identity) == "alice", "first-connection-proves-alice")
+	// later checks by the same verifier: another account (accepted), a credential for other endpoints (rejected)
+	n := 1 + rt.Choose(2)
+	for i := 0; i < n; i++ {
+		if rt.Bool() {
+			second, err := node.CheckCredential(ids[2], bob.MakeCredentials(ids[0]))
+			rt.Assert(err == nil && string(second.Identity) == "bobby", "later-connection-proves-bob")
+		} else {
+			_, err := node.CheckCredential(ids[2], alice.MakeCredentials(ids[0]))
+			rt.Assert(err != nil, "credential-for-other-endpoints-rejected")
+		}
+		rt.Assert(string(first.Identity) == "alice", "identity-of-an-earlier-connection-is-not-rewritten")
+	}
+	rt.Reach("sequence")
+}
